@@ -247,7 +247,13 @@ func (g *gstate) step() {
 		if a.x {
 			g.tags["extend.xpub-account"] = true
 		}
-	case k < 46: // lookup of a chained address
+	case k < 46: // lookup of a chained address; sometimes the transaction store records a payment to one
+		if rng.Intn(5) == 0 {
+			sc, ref := g.chainRef(true)
+			g.add("rectx s=%s ref=%s", sc, ref)
+			g.tags["tx-recorded"] = true
+			return
+		}
 		sc, ref := g.chainRef(rng.Intn(8) != 0)
 		h := g.h()
 		g.add("lookup s=%s ref=%s h=%d", sc, ref, h)
@@ -578,6 +584,13 @@ func directed(rng *rand.Rand, q string) []core.Case {
 			"extend s="+sc+" a=0 last=6 int=1", "next s="+sc+" a=0 n=1 int=0 h=6", "restart", "props s="+sc+" a=0",
 			"next s="+sc+" a=0 n=2 int=0 h=7", "next s="+sc+" a=0 n=1 int=1 h=9", "unlock p=0", "lookup s="+sc+" ref=c:0:0:2 h=10", "privkey h=10",
 			"restart", "props s="+sc+" a=0", "next s="+sc+" a=0 n=1 int=0 h=11")
+		// C04 boundary: issue, record a transaction (public material enters the file through wtxmgr only), keep
+		// using the address manager in every lock state, convert, reopen
+		mk("tx-recorded-boundary", "next s="+sc+" a=0 n=2 int=0 h=1", "rectx s="+sc+" ref=c:0:0:0", "markused s="+sc+" ref=c:0:0:0",
+			"unlock p=0", "next s="+sc+" a=0 n=1 int=1 h=3", "rectx s="+sc+" ref=c:0:1:0", "importpriv s="+sc+" k=1 comp=1 h=4",
+			"importscript s="+sc+" k=1 kind=1 secret=1 h=5", "newacct s="+sc+" name=2", "next s="+sc+" a=1 n=1 int=0 h=6", "rectx s="+sc+" ref=c:1:0:0",
+			"chpass priv=1 old=0 new=1", "lock", "lookup s="+sc+" ref=c:0:0:1 h=7", "restart", "lookup s="+sc+" ref=c:0:0:0 h=8", "rectx s="+sc+" ref=c:0:0:1",
+			"convertwo", "restart", "lookup s="+sc+" ref=c:1:0:0 h=9", "next s="+sc+" a=0 n=1 int=0 h=10")
 		// imports in every lock state, conversion, reopen, imports again
 		mk("imports-lock-states", "importpriv s="+sc+" k=1 comp=1 h=1", "importscript s="+sc+" k=1 kind=0 secret=1 h=2",
 			"importscript s="+sc+" k=2 kind=1 secret=0 h=3", "importpub s="+sc+" k=2 h=4", "unlock p=0", "importpriv s="+sc+" k=3 comp=0 h=5",
